@@ -95,7 +95,9 @@
 (*                 component minima) whenever the numbering is the rank    *)
 (*                 numbering; for every root r the row of r's label is the *)
 (*                 sum over Comp(r) (numbering-free form, this is what the *)
-(*                 harness compares)                                       *)
+(*                 harness compares); row / total = sum(w x) / sum(w) over *)
+(*                 the members whenever the total weight is not 0, for     *)
+(*                 weights of any sign (WMeanIs)                           *)
 (*   DsLaw         every table a DataSet operation returned - after ANY    *)
 (*                 history of reads, set_monitor, reset_peaks_cache, save  *)
 (*                 + load - is the table of the labels of the file with    *)
@@ -131,6 +133,19 @@
 (* Bug = "elifcache": reset_peaks_cache with its second test made an elif  *)
 (* of the first; TLC refutes DsLaw by "both tables read, set_monitor,      *)
 (* merged table read" (LabelND_bugds.cfg).                                 *)
+(*                                                                         *)
+(* Sign classes (Neg = TRUE): the weights w = sI * scale factor may have   *)
+(* any sign - a background-subtracted table holds negative intensities, a  *)
+(* monitor with its offset subtracted reads below zero where the beam was  *)
+(* lost.  The statement's "intensity-weighted mean" is sum(w x) / sum(w)   *)
+(* for every merged peak whose total weight is not 0 (MergeOK, WMeanIs);   *)
+(* nothing is claimed about the mean of a merged peak of total weight 0.   *)
+(* With Neg = TRUE 2D peak 1 has sI = -9, the direct scale factor of frame *)
+(* 2 is -3/4 and both monitors are negative on frame 1: over all graphs on *)
+(* <= 4 nodes there are merged peaks of negative total, of positive total  *)
+(* with a negative member, and of total exactly 0 (unscaled {0,1,2},       *)
+(* scaled {0,3}).  Neg = FALSE keeps the all-positive tables (then MergeOK *)
+(* also says that every total is > 0).                                     *)
 (*                                                                         *)
 (* Not modelled, bound by the harness only (the model is covariant in      *)
 (* them): the values of the property table (MergeOK is an identity of      *)
@@ -180,6 +195,12 @@ CONSTANTS NSet,      \* set of node counts
           DsOps,     \* the DataSet operations of the histories: subset of {"pk2d", "pk4d", "cf2d", "cf4d",
                      \*   "table", "setmon", "reset", "saveload"}
           NMon,      \* 0..2: number of different monitors set_monitor may be called with
+          Neg,       \* BOOLEAN: sign classes of the weights.  FALSE: every intensity, scale factor and
+                     \*   monitor reading is positive.  TRUE: 2D peak 1 has a negative intensity (a
+                     \*   background-subtracted table), the scale factors handed over directly are
+                     \*   negative on frame 2 and both monitors read below zero on frame 1 (beam lost,
+                     \*   offset subtracted): merged peaks of negative total weight, of positive total
+                     \*   weight with negative members, and of total weight exactly 0 (mean undefined)
           Shape      \* "any": every edge list; "sorted": one edge list per multiset of edges
                      \*   (only with Static = FALSE); "tree": the spanning trees on n nodes
                      \*   (edges a < b, listed once) - chains, stars and everything between;
@@ -227,13 +248,18 @@ Rank(r) == Cardinality({s \in Roots : s < r})
 NF == 4
 SDen == 4
 S1(k) == 1 + ((k * k + 3) % 5)
-SI(k) == 2 + ((7 * k + 1) % 11)
+SI(k) == IF Neg /\ k = 1 THEN -9 ELSE 2 + ((7 * k + 1) % 11)
 SR(k) == SI(k) * (3 + (k % 4)) + (k % 3)
 SC(k) == SI(k) * (10 - (k % 6)) - (k % 2)
 FRM(k) == (3 * k + 1) % NF
 OM(f) == 10 * f - 5
 DTY(f) == 7 - 3 * f * f
-SCN(f) == f + 1
+SCN(f) == IF Neg /\ f = 2 THEN -3 ELSE f + 1
+\* Neg = TRUE, nodes 0..3 (frames 1, 0, 3, 2): weights unscaled 3, -9, 6, 2 (component {0,1,2}: total 0,
+\* {0,1}: -6, {0,1,2,3}: 2 with a negative member); with the direct scale factors (x 1/4) 6, -9, 24, -6
+\* ({0,3}: total 0 although the unscaled total is 5, {1,3}: -15, {1,2,3}: 9); monitor 1: -6, -54, 18, 2;
+\* monitor 2: -36, -18, 48, 6.  The statement asks for sum(w x) / sum(w) whenever sum(w) # 0, whatever
+\* the signs; a merged peak of total weight 0 has no mean (only its sums are claimed).
 
 \* Which per-frame scale factors a table was made with ("scale id"):
 \*   NoScale   none (scale_factor=None)
@@ -244,7 +270,8 @@ SCN(f) == f + 1
 \*             monitor 1 uses the default np.mean, monitor 2 a constant (the docstring's lambda)
 NoScale == 0
 Direct == 9
-MONV(m) == IF m = 1 THEN <<1, 3, 12, 8>> ELSE <<12, 2, 24, 3>>
+MONV(m) == IF Neg THEN (IF m = 1 THEN <<4, -12, 24, 8>> ELSE <<12, -2, 8, 3>>)
+           ELSE (IF m = 1 THEN <<1, 3, 12, 8>> ELSE <<12, 2, 24, 3>>)
 REFV(m) == IF m = 1 THEN (MONV(1)[1] + MONV(1)[2] + MONV(1)[3] + MONV(1)[4]) \div NF ELSE 6
 \* numerator over SDen of the scale factor of frame f (denominator 1 for NoScale)
 ScN(s, f) == IF s = NoScale THEN 1
@@ -254,7 +281,8 @@ ScN(s, f) == IF s = NoScale THEN 1
 \* integer, and on every frame the four scale factors (none, direct, monitor 1, monitor 2) differ -
 \* except frame NF-1 where Direct = 1: a table made with one scale id is never a table of another
 ASSUME (MONV(1)[1] + MONV(1)[2] + MONV(1)[3] + MONV(1)[4]) % NF = 0
-ASSUME \A m \in 1..2 : \A f \in 0..NF-1 : (REFV(m) * SDen) % MONV(m)[f + 1] = 0
+ASSUME \A m \in 1..2 : \A f \in 0..NF-1 : ScN(m, f) * MONV(m)[f + 1] = REFV(m) * SDen
+ASSUME Neg \in BOOLEAN
 ASSUME \A f \in 0..NF-1 : Cardinality({SDen, ScN(1, f), ScN(2, f), SCN(f)}) >= (IF f = NF - 1 THEN 3 ELSE 4)
 
 \* contribution of 2D peak k to the 7 rows of out (1-based rows 1..7 = out[0..6]);
@@ -291,6 +319,13 @@ MergeDefL(lab, nl, scaled) ==
         [L \in 1..nl |->
             LET members == {k \in Nodes : lab[k] = L - 1} IN
             SumSet(members, [k \in members |-> RowVal(k, scaled, row)])]]
+
+\* num / den is the weighted mean sum(w x) / sum(w) of the members M (row 2 of a member is its weight
+\* w = sI * scale factor, rows 3..6 are w * x for x = row, column, omega, dty); vacuous when sum(w) = 0
+WMeanIs(num, den, M, scaled, row) ==
+    LET sw == SumSet(M, [k \in M |-> RowVal(k, scaled, 2)])
+        swx == SumSet(M, [k \in M |-> RowVal(k, scaled, row)]) IN
+    sw # 0 => (den # 0 /\ num * sw = swx * den)
 
 RankLabels == [v \in Nodes |-> Rank(g.cmin[v])]
 Ranked == pkid = RankLabels
@@ -734,7 +769,12 @@ MergeOK == phase = "done" =>
     /\ \A r \in Roots : \A row \in 1..7 :
           /\ out.u[row][pkid[r] + 1] = SumSet(Comp(r), [k \in Comp(r) |-> RowVal(k, NoScale, row)])
           /\ out.s[row][pkid[r] + 1] = SumSet(Comp(r), [k \in Comp(r) |-> RowVal(k, Direct, row)])
-    /\ \A L \in 1..nlab : out.u[2][L] > 0 /\ out.s[2][L] > 0
+    /\ ~Neg => \A L \in 1..nlab : out.u[2][L] > 0 /\ out.s[2][L] > 0
+    \* the means: row / total weight is sum(w x) / sum(w) over the members whenever the total weight is
+    \* not 0 - for weights of ANY sign (compared by cross multiplication; nothing is claimed for total 0)
+    /\ \A r \in Roots : \A row \in 3..6 :
+          /\ WMeanIs(out.u[row][pkid[r] + 1], out.u[2][pkid[r] + 1], Comp(r), NoScale, row)
+          /\ WMeanIs(out.s[row][pkid[r] + 1], out.s[2][pkid[r] + 1], Comp(r), Direct, row)
 
 \* the 2D table: sum_intensity of 2D peak k is sI * scale factor of its frame (numerator over SDen, or
 \* over 1 for NoScale); spot3d_id is the label the table holds
@@ -784,7 +824,7 @@ EmitInv ==
              ei |-> Seq0(g.ei, g.ne), ej |-> Seq0(g.ej, g.ne),
              cmin |-> Seq0(g.cmin, g.n),
              nlabel |-> nlab, labels |-> Seq0(pkid, g.n),
-             hist |-> post.hist, ranked |-> Ranked,
+             hist |-> post.hist, ranked |-> Ranked, neg |-> Neg,
              props |-> << [k \in 1..g.n |-> S1(k-1)], [k \in 1..g.n |-> SI(k-1)],
                           [k \in 1..g.n |-> SR(k-1)], [k \in 1..g.n |-> SC(k-1)],
                           [k \in 1..g.n |-> FRM(k-1)] >>,
@@ -802,7 +842,7 @@ EmitDs ==
              ei |-> Seq0(g.ei, g.ne), ej |-> Seq0(g.ej, g.ne),
              cmin |-> Seq0(g.cmin, g.n),
              nlabel |-> nlab, labels |-> Seq0(pkid, g.n),
-             hist |-> post.hist, dshist |-> ds.hist,
+             hist |-> post.hist, dshist |-> ds.hist, neg |-> Neg,
              props |-> << [k \in 1..g.n |-> S1(k-1)], [k \in 1..g.n |-> SI(k-1)],
                           [k \in 1..g.n |-> SR(k-1)], [k \in 1..g.n |-> SC(k-1)],
                           [k \in 1..g.n |-> FRM(k-1)] >>,
